@@ -32,7 +32,7 @@ def gc_m(a: Tuple[float, float], b: Tuple[float, float]) -> float:
 
 
 @st.composite
-def st_graph(draw, min_nodes: int = 4, max_nodes: int = 12, varied_speed: bool = True) -> Dict[str, Any]:
+def st_graph(draw, min_nodes: int = 4, max_nodes: int = 12, varied_speed: bool = True, arbitrary_lengths: bool = False) -> Dict[str, Any]:
     n = draw(st.integers(min_nodes, max_nodes))
     side = math.ceil(math.sqrt(n))
     jit = st.integers(-8, 8)
@@ -52,9 +52,15 @@ def st_graph(draw, min_nodes: int = 4, max_nodes: int = 12, varied_speed: bool =
     edges = []
     for a, b in sorted(pairs):
         base = max(gc_m(nodes[a][1:], nodes[b][1:]), 20.0)
-        stretch = draw(st.sampled_from([1.0, 1.0, 1.1, 1.3, 1.6]))
+        # arbitrary_lengths: the length attribute is free input data and may even be shorter than the straight line
+        # between the junctions (C13/C14 quantify over arbitrary lengths); movement checks keep physical lengths
+        stretch = draw(st.sampled_from([0.3, 0.6, 1.0, 1.0, 1.1, 1.3, 1.6, 2.5] if arbitrary_lengths else [1.0, 1.0, 1.1, 1.3, 1.6]))
         speed = draw(st.sampled_from(SPEEDS + [None])) if varied_speed else draw(st.sampled_from([40, None]))
-        edges.append([100 + a, 100 + b, round(base * stretch, 3), speed])
+        e = [100 + a, 100 + b, round(base * stretch, 3), speed]
+        if arbitrary_lengths and draw(st.sampled_from([False, False, True])):
+            # an explicit travel_time attribute (as in the shipped Denver file), not necessarily length / speed
+            e.append(round(base / 1000.0 / (speed or 40) * 3600.0 * draw(st.sampled_from([0.5, 1.0, 2.0])), 3))
+        edges.append(e)
     return {"nodes": nodes, "edges": edges}
 
 
@@ -65,8 +71,9 @@ def graph_to_node_link(spec: Dict[str, Any]) -> Dict[str, Any]:
         "graph": {},
         "nodes": [{"id": i, "y": la, "x": lo} for i, la, lo in spec["nodes"]],
         "links": [
-            dict({"source": u, "target": v, "key": 0, "length": ln}, **({"speed_kmph": sp} if sp is not None else {}))
-            for u, v, ln, sp in spec["edges"]
+            dict({"source": e[0], "target": e[1], "key": 0, "length": e[2]}, **({"speed_kmph": e[3]} if e[3] is not None else {}),
+                 **({"travel_time": e[4]} if len(e) > 4 else {}))
+            for e in spec["edges"]
         ],
     }
 
